@@ -704,6 +704,16 @@ RCP<const Basic> load_basic(Archive &ar, RCP<const Derivative> &)
     RCP<const Basic> arg;
     multiset_basic set;
     ar(arg, set);
+    // the constructor only asserts its invariant; untrusted input must not
+    // create a Derivative without variables or with non-symbol variables
+    if (set.empty()) {
+        throw SerializationError("Derivative without variables");
+    }
+    for (const auto &s : set) {
+        if (not is_a<Symbol>(*s)) {
+            throw SerializationError("Derivative variable is not a Symbol");
+        }
+    }
     return make_rcp<const Derivative>(arg, std::move(set));
 }
 template <class Archive>
